@@ -1,3 +1,5 @@
+import PhysisModel.Proofs.PbdParse
+import PhysisModel.Proofs.PbdLayout
 import PhysisModel.Proofs.Cmp
 import PhysisModel.Proofs.Layer
 import PhysisModel.Proofs.Tera
@@ -95,12 +97,13 @@ example : Spec.Tera.gridPos 0xFFFF = 0xC2800000 ∧ Spec.Tera.gridPos 0 = 0x4280
 Full statement (design §6.16):
   `c16_pbd_chain (f) (a b)` : `WF f → HasSibling a →
       getDeformMatrices (parse (encode f)) a b = some (bonesAlong (parentChain f a b))`.
-Proved below: the chain walk on the **parsed records** (`Pbd.toModel f` = the header holding exactly the
-items, links, bone names and matrices of `f`), for every forest, every pair of body ids, with termination
-of the Rust `loop` (fuel `links.len() + 1` never runs out on a forest).  The remaining step
-`fromExisting (encode f) = .ok (toModel f)` (offset tables, out-of-line names and matrices) is
-covered by the correspondence only — every `pbd` case runs the real parser and the model's parser
-on the file produced by `Spec.Pbd.encode` — hence `_partial`. -/
+It is proved in two halves.  Here: the chain walk on the **parsed records** (`Pbd.toModel f` = the header
+holding exactly the items, links, bone names and matrices of `f`), for every forest, every pair of body ids,
+with termination of the Rust `loop` (fuel `links.len() + 1` never runs out on a forest) — this theorem keeps
+its historical name `c16_pbd_chain_partial`.  At the end of this file: the byte-level half
+`fromExisting (encode f) = .ok (toModel f)` (`c16_pbd_parse_encode`: offset tables, out-of-line names and
+matrices, padding) and the composition `c16_pbd_chain`, plus the same for files in any layout the reader
+accepts (`c16_pbd_parse_layout`, `c16_pbd_parse_placed`, `c16_pbd_chain_placed`). -/
 
 /-- `get_deform_matrices(a, b)` returns the named matrices of the first item with body id `a`, then
 those of its ancestors, nearest first, up to but excluding the item with body id `b` (through the root
@@ -185,5 +188,126 @@ example : Spec.Layer.encode ⟨0x3142474c, 0x3150474c, 261, [0x50,0x6c,0x61,0x6e
     [0x4c,0x47,0x42,0x31, 0x2d,0,0,0, 1,0,0,0, 0x4c,0x47,0x50,0x31, 0x18,0,0,0, 5,1,0,0, 0x10,0,0,0,
      0x10,0,0,0, 0,0,0,0, 0x50,0x6c,0x61,0x6e,0x4c,0x69,0x76,0x65, 0] := by decide
 example : Spec.Layer.WF ⟨0x3142474c, 0x3150474c, 261, [0x50,0x6c,0x61,0x6e,0x4c,0x69,0x76,0x65]⟩ := by decide
+
+end Physis.C16
+
+/-! ## pre-bone deformer, byte level (`src/pbd.rs`, `strings_parser`) — completes `c16_pbd_chain_partial`
+
+`Spec.Pbd.encode` lays a deformer file out as: count, item table (body id, link index, offset of the item's
+out-of-line block), link table, then one block per item (bone count, u16 name offsets relative to the block,
+a u16 of padding when the count is odd, the 4x3 matrices, the NUL-terminated names).  Items and links are
+arbitrary lists (any order, any cross references — the link index / deformer index / parent fields are
+data to the parser), 0 or more bones per item, any NUL-free names; `WFLayout` only asks for what the
+fields can hold (equal table sizes, 12 floats per matrix, block < 2^16 for the u16 name offsets,
+file < 2^31 for the i32 block offsets). -/
+namespace Physis.C16
+open Physis
+
+/-- **`PreBoneDeformer::from_existing` returns exactly the stored records**: on the encoding of every file
+the layout can hold, the reader (item table, `seek_before`/`restore_position` into the out-of-line blocks,
+`strings_parser` over the name offsets, odd-count padding, matrices, link table) yields the header holding
+the items — body id, link index, names and matrices in order — and the links of `f`. -/
+theorem c16_pbd_parse_encode (f : Spec.Pbd.File) (h : Spec.Pbd.WFLayout f) :
+    Pbd.fromExisting (Spec.Pbd.encode f) = .ok (Pbd.toModel f) :=
+  Pbd.fromExisting_encode f h
+
+/-- **the named 4x3 matrices along the parent chain**: parsing the encoded file and asking for
+`get_deform_matrices(a, b)` returns the bones (name + matrix) of the first item with body id `a`, then those
+of its ancestors, nearest first, up to but excluding the item with body id `b` (through the root when `b` is
+not an ancestor) — for every well-formed forest, any item / link order, duplicate ids, 0..K bones per item,
+whenever the start node has a sibling link (the no-sibling case is left unconstrained by the property). -/
+theorem c16_pbd_chain (f : Spec.Pbd.File) (a b : UInt16) (hwf : Spec.Pbd.WFTree f) (hlay : Spec.Pbd.WFLayout f)
+    (start : Spec.Pbd.Item) (hfind : Spec.Pbd.findItem f a = some start) (hab : a ≠ b)
+    (hs : Spec.Pbd.HasSibling f start) :
+    ∃ bones, Spec.Pbd.deformBones f start b = some bones ∧
+      Pbd.query (Spec.Pbd.encode f) a b = .ok (bones.map Pbd.convBone) := by
+  obtain ⟨bones, hspec, hmodel⟩ := c16_pbd_chain_partial f a b hwf start hfind hab hs
+  exact ⟨bones, hspec, by rw [Pbd.query_encode f hlay, hmodel]⟩
+
+/-- the three-level forest above is a well-formed file; its 3 → 1 query through the bytes -/
+example : Spec.Pbd.WFLayout exampleForest := by decide +kernel
+example : ∃ bones, Spec.Pbd.deformBones exampleForest ⟨3, 0, [⟨[0x63], [3,0,0,0,0,3,0,0,0,0,3,0]⟩]⟩ 1 = some bones ∧
+    Pbd.query (Spec.Pbd.encode exampleForest) 3 1 = .ok (bones.map Pbd.convBone) :=
+  c16_pbd_chain exampleForest 3 1 (by decide) (by decide +kernel) _ (by decide) (by decide) (by decide)
+
+/-- items with 0, 1 (odd: padding present), 2 (even: no padding) bones, an empty name, item order different
+from link order: child (id 7, two bones) → root (id 5, one bone); id 9 is a second root without bones -/
+def exampleMixed : Spec.Pbd.File :=
+  ⟨[⟨9, 0, []⟩, ⟨7, 2, [⟨[0x6a, 0x5f, 0x6b], [1,2,3,4,5,6,7,8,9,10,11,12]⟩, ⟨[], [0,0,0,0,0,0,0,0,0,0,0,0x3F800000]⟩]⟩,
+    ⟨5, 1, [⟨[0x6e], [0x3F800000,0,0,0,0,0x3F800000,0,0,0,0,0x3F800000,0]⟩]⟩],
+   [⟨0xFFFF, 0xFFFF, 1, 0⟩, ⟨0xFFFF, 2, 0xFFFF, 2⟩, ⟨1, 0xFFFF, 0, 1⟩]⟩
+example : Spec.Pbd.WFTree exampleMixed ∧ Spec.Pbd.WFLayout exampleMixed := by decide +kernel
+/-- the bytes of the one-bone block (count 1, name offset 0x38 = 56, padding, 12 floats, "n\0") -/
+example : Spec.Pbd.encodeBlock [⟨[0x6e], [0x3F800000,0,0,0,0,0x3F800000,0,0,0,0,0x3F800000,0]⟩] =
+    [1,0,0,0, 0x38,0, 0,0, 0,0,0x80,0x3F, 0,0,0,0, 0,0,0,0, 0,0,0,0, 0,0,0,0, 0,0,0x80,0x3F, 0,0,0,0, 0,0,0,0,
+     0,0,0,0, 0,0,0,0, 0,0,0x80,0x3F, 0,0,0,0, 0x6e,0] := by decide
+example : Pbd.query (Spec.Pbd.encode exampleMixed) 7 9 =
+    .ok [⟨[0x6a, 0x5f, 0x6b], [1,2,3,4,5,6,7,8,9,10,11,12]⟩, ⟨[], [0,0,0,0,0,0,0,0,0,0,0,0x3F800000]⟩,
+         ⟨[0x6e], [0x3F800000,0,0,0,0,0x3F800000,0,0,0,0,0x3F800000,0]⟩] := by decide +kernel
+
+/-! ### any layout the reader accepts (`Spec/PbdLayout.lean`)
+
+The format does not fix where an item's block lies: the item row records an absolute offset, and
+`Spec.Pbd.encode` is only one way to lay a file out (blocks back to back in item order, reserved bytes
+zero).  The following theorems do not depend on that choice. -/
+
+/-- **general position**: whenever the count, the item rows (with any block offsets and any 4 reserved
+bytes each) and the link table are followed by data in which every row's offset points at a well-formed
+encoded block of that item's bones — blocks in any order, disjoint or shared, with anything between and
+behind them — `from_existing` returns exactly the items of the rows and the links. -/
+theorem c16_pbd_parse_layout (rows : List Spec.Pbd.Row) (links : List Spec.Pbd.Link) (data : Bytes)
+    (h : Spec.Pbd.WFRows rows links data) :
+    Pbd.fromExisting (Spec.Pbd.assemble rows links data) =
+      .ok ⟨rows.map (fun r => Pbd.convItem r.1), links.map Pbd.convLink⟩ :=
+  Pbd.fromExisting_at rows links data h
+
+/-- the placed family (blocks stored in any order, filler in front of each, blocks shared by items with
+equal bones, unreferenced blocks, any reserved bytes, any trailer): the reader returns the records of `f` -/
+theorem c16_pbd_parse_placed (f : Spec.Pbd.File) (p : Spec.Pbd.Placement) (file : Bytes)
+    (henc : Spec.Pbd.encodePlaced f p = some file) (h : Spec.Pbd.WFPlaced f p) :
+    Pbd.fromExisting file = .ok (Pbd.toModel f) :=
+  Pbd.fromExisting_placed f p file henc h
+
+/-- `c16_pbd_chain` through any placed file -/
+theorem c16_pbd_chain_placed (f : Spec.Pbd.File) (p : Spec.Pbd.Placement) (file : Bytes) (a b : UInt16)
+    (hwf : Spec.Pbd.WFTree f) (henc : Spec.Pbd.encodePlaced f p = some file) (hlay : Spec.Pbd.WFPlaced f p)
+    (start : Spec.Pbd.Item) (hfind : Spec.Pbd.findItem f a = some start) (hab : a ≠ b)
+    (hs : Spec.Pbd.HasSibling f start) :
+    ∃ bones, Spec.Pbd.deformBones f start b = some bones ∧
+      Pbd.query file a b = .ok (bones.map Pbd.convBone) := by
+  obtain ⟨bones, hspec, hmodel⟩ := c16_pbd_chain_partial f a b hwf start hfind hab hs
+  refine ⟨bones, hspec, ?_⟩
+  simp only [Pbd.query, c16_pbd_parse_placed f p file henc hlay, hmodel]
+
+/-- `exampleMixed` with its blocks stored in the order 5, 9, 7 behind 3 / 0 / 1 filler bytes, a stray block
+nobody points at, non-zero reserved bytes and a trailer -/
+def examplePlacement : Spec.Pbd.Placement :=
+  ⟨[⟨[0xEE, 0xEE, 0xEE], [⟨[0x6e], [0x3F800000,0,0,0,0,0x3F800000,0,0,0,0,0x3F800000,0]⟩]⟩,
+    ⟨[], []⟩,
+    ⟨[0xEE], [⟨[0x7a], [9,9,9,9,9,9,9,9,9,9,9,9]⟩]⟩,
+    ⟨[], [⟨[0x6a, 0x5f, 0x6b], [1,2,3,4,5,6,7,8,9,10,11,12]⟩, ⟨[], [0,0,0,0,0,0,0,0,0,0,0,0x3F800000]⟩]⟩],
+   [[0,0,0x80,0x3F], [1,2,3,4], [0xFF,0xFF,0xFF,0xFF]], [0xAA, 0xBB]⟩
+example : Spec.Pbd.WFPlaced exampleMixed examplePlacement := by decide +kernel
+/-- the offsets recorded in the item rows: 9 → 125, 7 → 188 (behind the stray block), 5 → 67 -/
+example : (Spec.Pbd.rowsOf (Spec.Pbd.place 64 examplePlacement.stored).2 exampleMixed.items
+    examplePlacement.reserved).map (·.map (·.2.1)) = some [125, 188, 67] := by decide +kernel
+example : ∃ file, Spec.Pbd.encodePlaced exampleMixed examplePlacement = some file ∧
+    Pbd.query file 7 9 =
+    .ok [⟨[0x6a, 0x5f, 0x6b], [1,2,3,4,5,6,7,8,9,10,11,12]⟩, ⟨[], [0,0,0,0,0,0,0,0,0,0,0,0x3F800000]⟩,
+         ⟨[0x6e], [0x3F800000,0,0,0,0,0x3F800000,0,0,0,0,0x3F800000,0]⟩] := by
+  cases h : Spec.Pbd.encodePlaced exampleMixed examplePlacement with
+  | none => exact absurd h (by decide +kernel)
+  | some file =>
+    obtain ⟨bones, hb, hq⟩ := c16_pbd_chain_placed exampleMixed examplePlacement file 7 9 (by decide +kernel) h
+      (by decide +kernel) ⟨7, 2, [⟨[0x6a, 0x5f, 0x6b], [1,2,3,4,5,6,7,8,9,10,11,12]⟩, ⟨[], [0,0,0,0,0,0,0,0,0,0,0,0x3F800000]⟩]⟩
+      (by decide) (by decide) (by decide)
+    refine ⟨file, rfl, ?_⟩
+    rw [hq]
+    have : Spec.Pbd.deformBones exampleMixed ⟨7, 2, [⟨[0x6a, 0x5f, 0x6b], [1,2,3,4,5,6,7,8,9,10,11,12]⟩, ⟨[], [0,0,0,0,0,0,0,0,0,0,0,0x3F800000]⟩]⟩ 9 =
+        some [⟨[0x6a, 0x5f, 0x6b], [1,2,3,4,5,6,7,8,9,10,11,12]⟩, ⟨[], [0,0,0,0,0,0,0,0,0,0,0,0x3F800000]⟩,
+         ⟨[0x6e], [0x3F800000,0,0,0,0,0x3F800000,0,0,0,0,0x3F800000,0]⟩] := by decide +kernel
+    rw [this] at hb
+    injection hb with hb
+    rw [← hb]; rfl
 
 end Physis.C16
